@@ -23,7 +23,8 @@ LaneOK(e, r) ==
     /\ e.final = r.final                                 \* and the returned checkpoint are identical
     /\ Len(e.texts) = Len(e.rets)
     /\ (Len(e.texts) > 0) => e.final = e.texts[Len(e.texts)]
-    /\ e.printedOther = 0                                \* output on rank 0 only
+    /\ e.printedOther = 0                                \* output on rank 0 only: nothing printed ...
+    /\ ("filesOther" \in DOMAIN e) => e.filesOther = 0   \* ... and no file written by another rank
     /\ (Growth) => (IF Verbose(e.mode) THEN e.printed0 > 0 ELSE e.printed0 = 0)
     /\ (Growth) => (IF Writes(e.mode) /\ Len(e.texts) > 0 /\ ~("badfile" \in DOMAIN e /\ e.badfile = 1) THEN e.fileText = e.final ELSE e.fileText = -1)
     \* growth: the verbose modes of a serial run report, per iteration, its index, its calls and its non-finite evaluations
